@@ -109,12 +109,20 @@ Fixpoint merge (fuel : nat) (t : tree bytes) (n : Z) (v : bytes) : merge_out :=
 (* every iteration but the last removes a node *)
 Definition merge_fuel (t : tree bytes) : nat := S (tree_size t).
 
-(* ACLDomainData::parse(): while (t = strtokFile()) { Tolower(t); Merge(domains, xstrdup(t)); } *)
+(* while (t[0] == '.' && t[1] == '.') ++t;   -- redundant leading dots are skipped *)
+Fixpoint collapse_dots (t : bytes) : bytes :=
+  match t with
+  | c :: ((c2 :: _) as r) => if ((c =? dot) && (c2 =? dot))%N then collapse_dots r else t
+  | _ => t
+  end.
+
+(* ACLDomainData::parse():
+     while (t = strtokFile()) { Tolower(t); while (t[0] == '.' && t[1] == '.') ++t; Merge(domains, xstrdup(t)); } *)
 Fixpoint acl_parse_from (t : tree bytes) (n : Z) (tokens : list bytes) : merge_out :=
   match tokens with
   | [] => MOk t n
   | tok :: rest =>
-      match merge (merge_fuel t) t n (lower_str tok) with
+      match merge (merge_fuel t) t n (collapse_dots (lower_str tok)) with
       | MOk t' n' => acl_parse_from t' n' rest
       | bad => bad
       end
